@@ -195,6 +195,57 @@ class GetAnnotatedFunctions(Contract):
         return out
 
 
+class ProcessFeaturesDict(Contract):
+    """MetricFrame._process_features for a dict of arrays: one GroupFeature per entry, IN THE CALLER'S ORDER (the levels of by_group follow it, as for the
+    DataFrame with the same columns), each holding its own label-free column, numbered by position."""
+    source, function = MF, "MetricFrame._process_features"
+
+    def params(self, eng, st):
+        self.vals = {"zeta": Abstract("value", name="zeta"), "alpha": Abstract("value", name="alpha"), "Mid": Abstract("value", name="Mid")}          # not in sorted order
+        st.env.update({"self": Obj("MetricFrame"), "base_name": "sensitive_feature_", "features": PyDict(self.vals), "sample_array": Abstract("sample")})
+
+    def on_call(self, eng, st, node, name, recv, args, kwargs):
+        if name == "isinstance" and isinstance(args[0], PyDict):
+            return args[1] == ["dict"]
+        if name == "isinstance" and isinstance(args[0], str):
+            return args[1] == ["str"]
+        if name == "numpy.asarray" and args and isinstance(args[0], Abstract) and args[0].tag == "value":
+            return Abstract("asarray", of=args[0])
+        if name in ("pandas.DataFrame.from_dict", "pandas.DataFrame") and args and isinstance(args[0], PyDict):
+            return Abstract("frame_from_dict", cols=[(k, v) for k, v in args[0].d.items()])
+        if name == "len" and isinstance(args[0], PyList):
+            return len(args[0].items)
+        if name.endswith("check_consistent_length"):
+            return None
+        if name == "GroupFeature":
+            return Abstract("group_feature", base=args[0], col=args[1], idx=args[2], name=args[3] if len(args) > 3 else None)
+        return NotImplemented
+
+    def on_attr(self, eng, st, node, base, attr):
+        if isinstance(base, Abstract) and base.tag == "frame_from_dict":
+            if attr == "columns":
+                return PyList([k for k, _ in base.cols])
+            if attr == "iloc":
+                return Abstract("frame_iloc", of=base)
+        return NotImplemented
+
+    def on_subscript(self, eng, st, node, base, index):
+        if isinstance(base, Abstract) and base.tag == "frame_iloc" and isinstance(index, tuple) and len(index) == 2 and isinstance(index[1], int):
+            k, v = base.of.cols[index[1]]
+            return Abstract("column", key=k, arr=v)
+        return NotImplemented
+
+    def post(self, eng, st, status, value):
+        if status != "return" or not isinstance(value, PyList):
+            return [("returns_the_list_of_group_features", BoolVal(False))]
+        want = list(self.vals)
+        got = [(getattr(g, "col", None), getattr(g, "idx", None)) for g in value.items]
+        ok_order = len(got) == len(want) and all(isinstance(c, Abstract) and c.tag == "column" and c.key == w and i == j for j, ((c, i), w) in enumerate(zip(got, want)))
+        ok_vals = ok_order and all(isinstance(c.arr, Abstract) and c.arr.tag == "asarray" and c.arr.of.name == c.key for c, _ in got)
+        return [("one_feature_per_dict_entry_in_the_callers_order", BoolVal(bool(ok_order))),
+                ("each_feature_holds_the_label_free_copy_of_its_own_entry", BoolVal(bool(ok_vals)))]
+
+
 def column_name_injectivity():
     """-> list of (name, hyps, goal) for the lemma over ConstructAMF's postcondition"""
     n1, p1, n2, p2 = String("name1"), String("param1"), String("name2"), String("param2")
